@@ -574,13 +574,25 @@ def gen_control(repo):
         L.append('def %s : Bool := %s' % (k, 'true' if v else 'false'))
     meta['entryFacts'] = facts
     # --- get_tokens input normalisation: the fallback codec for undecodable bytes
-    src = inspect.getsource(lexer.Lexer.get_tokens)
-    m = re.search(r"except UnicodeDecodeError:\s*\n\s*text = text\.decode\('([^']+)'\)", src)
-    if not m:
-        raise TranslateError('get_tokens: fallback decode not found')
-    L.append('/-- codec used when bytes are not valid UTF-8 and no encoding is given -/')
-    L.append('def fallbackCodec : String := %s' % lean_str(m.group(1)))
-    meta['fallbackCodec'] = m.group(1)
+    # every `text.decode(x)` call of get_tokens, in source order: decode(encoding) | decode('<primary>') | decode('<fallback>') in the except branch
+    gt = _src_tree(lexer.Lexer.get_tokens).body[0]
+    decs = []
+    for n in ast.walk(gt):
+        if isinstance(n, ast.Call) and isinstance(n.func, ast.Attribute) and n.func.attr == 'decode':
+            a = n.args[0] if n.args else None
+            decs.append((n.lineno, n.col_offset, a.id if isinstance(a, ast.Name) else (a.value if isinstance(a, ast.Constant) else None), len(n.args) + len(n.keywords)))
+    decs.sort()
+    if len(decs) != 3 or decs[0][2] != 'encoding' or any(d[3] != 1 for d in decs) or not all(isinstance(d[2], str) for d in decs):
+        raise TranslateError('get_tokens: unexpected decode calls %r' % (decs,))
+    handlers = [h for n in ast.walk(gt) if isinstance(n, ast.Try) for h in n.handlers]
+    if len(handlers) != 1 or getattr(handlers[0].type, 'id', None) != 'UnicodeDecodeError':
+        raise TranslateError('get_tokens: unexpected exception handler around decode')
+    L.append('/-- codec tried first when bytes are given without an encoding -/')
+    L.append('def primaryCodec : String := %s' % lean_str(decs[1][2]))
+    L.append('/-- codec used when that raises UnicodeDecodeError -/')
+    L.append('def fallbackCodec : String := %s' % lean_str(decs[2][2]))
+    meta['primaryCodec'] = decs[1][2]
+    meta['fallbackCodec'] = decs[2][2]
     L.append('end Sql.Gen')
     L.append('')
     return {'ControlIR.lean': '\n'.join(L)}, {'control': meta}
